@@ -25,3 +25,56 @@ Proof.
   intros cs nm fwd ib text pat wp s e score pos H Hp.
   destruct (v1_sound_proof co sc cs nm fwd ib text pat wp s e score pos H Hp) as [_ [G _]]. exact G.
 Qed.
+
+(* ---------- FuzzyMatchV2 never fails: no out-of-range access, no read of a scratch cell that was not written
+   in the current call (stale slab contents can never influence the result) ---------- *)
+From Fzf Require Import V2MatrixBase V2MatrixFill V2MatrixTrace V2MatrixProofs.
+
+Definition init_p2 := mkP2 [] [] [] [] [] O O 0 O.
+
+Lemma v2_cases co sc cs nm fwd ib text p0 pat' wp cap :
+  let pat := p0 :: pat' in
+  (ib = true -> Forall (fun c => 0 <= c < 128) text) -> (forall c, c < 192 -> co_norm co c = c) ->
+  (* either an early exit whose result is Ok ... *)
+  (exists r, fuzzy_v2 co sc cs nm fwd ib text pat wp cap = Ok r /\
+             (r = NoMatch \/ fuzzy_v2 co sc cs nm fwd ib text pat wp cap = fuzzy_v1 co sc cs nm fwd ib text pat wp \/
+              length pat = 1%nat)) \/
+  (* ... or the full matrix path on a window that all phase-2 facts hold for *)
+  (exists lo hi, (2 <= length pat)%nat /\ (length pat <= length text)%nat /\
+     ascii_fuzzy_index ib text pat cs = Ok (Some (lo, hi)) /\ (lo <= hi <= length text)%nat /\
+     let w := firstn (hi - lo) (skipn lo text) in
+     let st := phase2 co sc cs nm fwd false w O p0 pat (last pat 0) 0 (s_init sc) false init_p2 in
+     p2_pidx st = length pat /\
+     fuzzy_v2 co sc cs nm fwd ib text pat wp cap = v2_after_phase2 fwd wp lo pat st /\ p2_maxScore st <= 0).
+Proof.
+  intros pat Ha Hn.
+  rewrite fuzzy_v2_unfold. fold pat. cbv zeta.
+  destruct (Nat.ltb_spec (length text) (length pat)) as [Hlt|Hge].
+  { left. exists NoMatch. split; [reflexivity|left; reflexivity]. }
+  destruct (match cap with Some c => c <? Z.of_nat (length text) * Z.of_nat (length pat) | None => false end) eqn:Ecap.
+  { left. destruct (v1_total_proof co sc cs nm fwd ib text pat wp) as [r Hr]. exists r.
+    split; [exact Hr|]. right. left.
+    rewrite fuzzy_v2_unfold. fold pat. cbv zeta.
+    destruct (Nat.ltb_spec (length text) (length pat)); [lia|]. rewrite Ecap. reflexivity. }
+  destruct (afi_total ib text pat cs) as [r Hr]. rewrite Hr. cbn [bind].
+  destruct r as [[lo hi]|]; [|left; exists NoMatch; split; [reflexivity|left; reflexivity]].
+  destruct (afi_window_sound co cs nm Hn ib text pat lo hi ltac:(discriminate) Ha Hr) as [R1 [R2 _]].
+  destruct (Nat.ltb_spec hi lo); [lia|]. destruct (Nat.ltb_spec (length text) hi); [lia|]. cbn [orb].
+  destruct (Nat.eqb_spec (length pat) 1) as [E1|E1].
+  { left. destruct (negb _); eexists; (split; [reflexivity|]); [left; reflexivity|right; right; exact E1]. }
+  set (st := phase2 co sc cs nm fwd false _ O p0 pat (last pat 0) 0 (s_init sc) false _).
+  destruct (Nat.eqb_spec (p2_pidx st) (length pat)) as [Ep|Ep]; cbn [negb].
+  2:{ left. exists NoMatch. split; [reflexivity|left; reflexivity]. }
+  right. exists lo, hi.
+  assert (H2 : (2 <= length pat)%nat) by (unfold pat in *; cbn [length] in *; lia).
+  split; [exact H2|]. split; [lia|]. split; [exact Hr|]. split; [lia|].
+  cbv zeta. fold init_p2 in st. fold st. split; [exact Ep|].
+  pose proof (fuzzy_v2_M2_proof co sc cs nm fwd ib text p0 pat' wp cap lo hi H2 ltac:(fold pat; lia) Ecap Hr ltac:(lia)) as G.
+  cbv zeta in G. fold pat in G. fold init_p2 in G. fold st in G. specialize (G Ep). destruct G as [G1 G2].
+  split; [|exact G2].
+  rewrite <- G1. rewrite fuzzy_v2_unfold. fold pat. cbv zeta.
+  destruct (Nat.ltb_spec (length text) (length pat)); [lia|]. rewrite Ecap, Hr. cbn [bind].
+  destruct (Nat.ltb_spec hi lo); [lia|]. destruct (Nat.ltb_spec (length text) hi); [lia|]. cbn [orb].
+  destruct (Nat.eqb_spec (length pat) 1); [contradiction|].
+  fold init_p2. fold st. destruct (Nat.eqb_spec (p2_pidx st) (length pat)); [reflexivity|contradiction].
+Qed.
